@@ -26,18 +26,29 @@ Exploration:
           those of the parent node, which are explored to a greater remaining depth;
   random  long seeded streams with random reference batches, configurations and samples.
 
-The reference statistics (len, md, md_std, acc, acc_std) are an oracle input of the model:
-`ref_stats` recomputes them from the harness's own copy of the data with sklearn's public
-KFold / clone / accuracy_score, following `calculate_distribution_statistics`.
+The reference statistics (len, md, md_std, acc, acc_std) are computed by the model (Model/MD3Ref.lean, `refStats`):
+for the initial `set_reference` and for every adoption at the end of an oracle round the harness sends the k fold bit lists
+(`ref_folds`: per fold, per test sample, in-margin bit and correctness bit under the classifier re-fitted on the fold's
+training part — computed from the harness's own copy of the data with sklearn's public KFold / clone and the margin function
+it handed to MD3); the model derives the per-fold ratios, the means, the population standard deviations (following numpy's
+pairwise summation, so that the result is normally bit-identical) and the length, and its statistics are compared with the
+ones the implementation exposes in `reference_distribution` (initially via the driver's `show`, afterwards on every call).
+Independently of the model, the implementation's statistics are compared with (a) `ref_stats` — the same computation done
+in Python with numpy — and (b) the declarative reading in exact rational arithmetic (mean over folds of count/size, variance
+= sum of squared deviations / k), which is what Props/C19Ref.lean proves about the model (`refStats_md`, `mdVar_mul_k`, …).
 """
-import copy, itertools, json, os, warnings
+import copy, itertools, json, math, os, warnings
 from fractions import Fraction
 import numpy as np
 import core
 
 TRUST = [
-    "sklearn KFold(shuffle, random_state=42) / clone / accuracy_score and numpy mean/std: the k-fold reference statistics are an "
-    "oracle input of the model, recomputed by the harness from its own copy of the data with the public sklearn API",
+    "sklearn KFold(shuffle, random_state=42) / clone: which rows form which fold, and the classifier re-fitted per fold, are oracle "
+    "inputs: the harness recomputes the fold membership and, per test sample, the margin bit and the correctness bit from its own copy "
+    "of the data with the public sklearn API and sends the bit lists; per-fold ratios, np.mean / np.std (population, numpy's pairwise "
+    "summation order) and len are computed by the Lean model (Model/MD3Ref.lean)",
+    "accuracy_score(y, pred) = fraction of equal entries; Python's int/int true division and numpy's float64 + - * / sqrt are IEEE "
+    "correctly rounded like Lean's Float",
     "margin bit and correctness bit of a sample are oracle inputs, computed by the harness with the user margin function / "
     "classifier it handed to MD3 (a deterministic feature-asymmetric threshold classifier, score 2*col0 - col1 read positionally, "
     "whose fit() sets the threshold to the mean training score); the correctness bit is taken with the features in the current "
@@ -93,8 +104,11 @@ def margin(det, sample, clf):
 _STATS = {}
 
 
-def ref_stats(rows, k, width=1.0):
-    """(len, md, md_std, acc, acc_std) of a labelled batch — what set_reference computes (md3.py:135-208)"""
+def ref_batch(rows, k, width=1.0):
+    """what set_reference computes for a labelled batch (md3.py:135-208), three ways:
+       stats  (len, md, md_std, acc, acc_std) with numpy, as the code does;
+       folds  the k fold bit lists for the Lean model: one token per fold, one digit 2*in_margin + correct per test sample;
+       exact  the declarative reading in exact rationals: (md, md variance, acc, acc variance, pooled md, pooled acc)"""
     key = (tuple(map(tuple, rows)), k, width)
     if key in _STATS:
         return _STATS[key]
@@ -104,15 +118,67 @@ def ref_stats(rows, k, width=1.0):
     X = np.array([[r[0], r[1]] for r in rows], dtype=float)      # columns in the order the adopted frame has them
     y = np.array([r[2] for r in rows], dtype=int)
     dup = clone(ThrClf(width))
-    mds, accs = [], []
+    mds, accs, folds, mdq, accq = [], [], [], [], []
+    n_in = n_ok = 0
     for tr, te in KFold(n_splits=k, random_state=42, shuffle=True).split(X):
         dup.fit(X[tr], y[tr])
         sig = [margin(None, X[i], dup) for i in te]
+        pred = dup.predict(X[te])
+        ok = [int(int(p_) == int(t_)) for p_, t_ in zip(pred, y[te])]
         mds.append(sum(sig) / len(sig))
-        accs.append(accuracy_score(y[te], dup.predict(X[te])))
-    r = (len(rows), float(np.mean(mds)), float(np.std(mds)), float(np.mean(accs)), float(np.std(accs)))
+        accs.append(accuracy_score(y[te], pred))
+        folds.append("".join(str(2 * s_ + o_) for s_, o_ in zip(sig, ok)))
+        mdq.append(Fraction(sum(sig), len(sig))); accq.append(Fraction(sum(ok), len(ok)))
+        n_in += sum(sig); n_ok += sum(ok)
+    stats = (len(rows), float(np.mean(mds)), float(np.std(mds)), float(np.mean(accs)), float(np.std(accs)))
+    mq, aq = sum(mdq) / k, sum(accq) / k
+    exact = (mq, sum((x - mq) ** 2 for x in mdq) / k, aq, sum((x - aq) ** 2 for x in accq) / k,
+             Fraction(n_in, len(rows)), Fraction(n_ok, len(rows)))
+    r = (stats, folds, exact)
     _STATS[key] = r
     return r
+
+
+def ref_stats(rows, k, width=1.0):
+    """(len, md, md_std, acc, acc_std) of a labelled batch, with numpy as the code computes them"""
+    return ref_batch(rows, k, width)[0]
+
+
+def ref_folds(rows, k, width=1.0):
+    return ref_batch(rows, k, width)[1]
+
+
+def folds_tail(folds):
+    """the `<ref>` part of a model line in fold form"""
+    return f"F {len(folds)} " + " ".join(f if f else "-" for f in folds)
+
+
+def spec_deviation(obs, rows, k, width):
+    """the property's summary clause in exact arithmetic, on the statistics the implementation exposes (`obs` = observation
+    tuple): md / acc = mean over the folds of count/size; md_std / acc_std = sqrt(sum of squared deviations / k); len = rows.
+    -> name of the first deviating statistic or None"""
+    mq, mv, aq, av, _, _ = ref_batch(rows, k, width)[2]
+    want = {"ref_len": len(rows), "ref_md": float(mq), "ref_md_std": math.sqrt(float(mv)), "ref_acc": float(aq),
+            "ref_acc_std": math.sqrt(float(av))}
+    for f, w in want.items():
+        x = obs[OBS.index(f)]
+        if (x != w) if f == "ref_len" else not core.close(x, w):
+            return f, w
+    return None
+
+
+def count_batch(acc, rows, k, width, where):
+    """input distribution of the summarised batches"""
+    stats, folds, exact = ref_batch(rows, k, width)
+    sizes = {len(f) for f in folds}
+    acc.count(f"refstats:{where}")
+    acc.count("refstats:k>=8(numpy 8-lane branch)" if k >= 8 else "refstats:k<8")
+    if len(sizes) > 1:
+        acc.count("refstats:unequal-fold-sizes")
+    if exact[0] != exact[4] or exact[2] != exact[5]:
+        acc.count("refstats:fold-mean-differs-from-pooled-ratio")
+    if exact[1] > 0 and exact[3] > 0:
+        acc.count("refstats:both-deviations-positive")
 
 
 # ------------------------------------------------------------------ configurations and symbols
@@ -144,12 +210,13 @@ class Config:
         self.t = self.clf.t_
         self.N = oracle_len if oracle_len is not None else len(ref_rows)
         self.stats0 = ref_stats(self.ref_rows, k, width)
+        self.folds0 = ref_folds(self.ref_rows, k, width)
         self.syms = {}
 
     def describe(self):
         return {"name": self.name, "reference_rows": [list(r) for r in self.ref_rows], "sensitivity": self.sens, "k": self.k,
                 "oracle_data_length_required": self.oracle_len, "margin_width": self.width, "classifier_threshold": self.t,
-                "reference_statistics": list(self.stats0)}
+                "reference_statistics": list(self.stats0), "reference_fold_bits": list(self.folds0)}
 
     # -- symbols ------------------------------------------------------------
     def update_sym(self, name, data, cols=("x1", "x2")):
@@ -208,6 +275,12 @@ class Config:
         return det
 
     def model_new(self):
+        """the model gets the fold bit lists of the reference batch and computes the statistics itself"""
+        return (f"new md3 {core.f2b(self.sens)} {'_' if self.oracle_len is None else self.oracle_len} "
+                f"3 1 2 3 {folds_tail(self.folds0)}")
+
+    def model_new_numeric(self):
+        """the old oracle form (ready-made statistics); kept alive by one self-test per run"""
         ln, md, sd, acc, asd = self.stats0
         return (f"new md3 {core.f2b(self.sens)} {'_' if self.oracle_len is None else self.oracle_len} "
                 f"3 1 2 3 {ln} {core.f2b(md)} {core.f2b(sd)} {core.f2b(acc)} {core.f2b(asd)}")
@@ -265,7 +338,7 @@ BROKEN = ("X:observe",) + (0,) * 5 + (NAN,) * 2 + (0,) + (NAN,) * 4
 
 
 def start(acc, cfg, report=True):
-    """fresh detector + first observation, compared with the harness's reference statistics; None when it fails"""
+    """fresh detector + first observation, compared with the harness's reference statistics; detector None when it fails"""
     ln, md, sd, a_, asd = cfg.stats0
     init_expected = ("N", 0, 0, 0, 0, cfg.N, md, (ln - 1) / ln, ln, md, sd, a_, asd)
     try:
@@ -280,8 +353,24 @@ def start(acc, cfg, report=True):
     if f is not None:
         if report:
             acc.fail("reference-statistics", cfg, [], -1, observable=f, impl=dict(zip(OBS, pre)), prescribed=dict(zip(OBS, init_expected)))
-        return None, None
+        return None, pre        # no detector to continue with, but the model's initial state is still compared with `pre`
+    dev = spec_deviation(pre, cfg.ref_rows, cfg.k, cfg.width)
+    if dev is not None:
+        if report:
+            acc.fail("k-fold-mean-std-spec", cfg, [], -1, observable=dev[0], impl=pre[OBS.index(dev[0])], exact_rational_spec=dev[1],
+                     fold_bits=list(cfg.folds0))
+        return None, pre
     return det, pre
+
+
+def init_lines(acc, cfg, pre, compare=True):
+    """driver lines that create the model from the fold bit lists and show its initial state; the `show` line is compared
+    with the implementation's first observation `pre` like any call"""
+    acc.lines.append(cfg.model_new()); acc.expect.append(None)
+    if compare and pre is not None:
+        info = {"decision": None, "margin": None, "boundary": False, "newref": cfg.stats0, "branch": "set_reference", "exact": False}
+        acc.lines.append("0 show"); acc.expect.append(("ok", pre, cfg, [], -1, info))
+        count_batch(acc, cfg.ref_rows, cfg.k, cfg.width, "initial-set_reference")
 
 
 def do_call(det, sym):
@@ -406,6 +495,8 @@ def prescribe(cfg, pre, sym, gathered):
         nforder = rows[0][3]           # the adopted frame has the first sample's column order
         pos = [({"x1": r[0], "x2": r[1]}[nforder[0]], {"x1": r[0], "x2": r[1]}[nforder[1]], r[2]) for r in rows]
         nr = ref_stats(pos, cfg.k, cfg.width) if len(rows) == n and n >= cfg.k else None
+        if nr is not None:
+            info["newfolds"], info["newrows"] = ref_folds(pos, cfg.k, cfg.width), pos
         info.update(decision=drift, margin=rel_margin(lhs, rhs), boundary=(lhs == rhs), newref=nr, exact=exact,
                     branch="label-N:" + ("drift" if drift else "ruled-out"))
         e.update(drift="D" if drift else "N", waiting=0, n_oracle=0)
@@ -439,8 +530,10 @@ def clause_of(field, branch):
 def model_line(depth, sym, info):
     if sym.kind == "u":
         return f"{depth} u {sym.rows} {sym.sig}"
-    nr = info.get("newref")
-    tail = (f"{nr[0]} {core.f2b(nr[1])} {core.f2b(nr[2])} {core.f2b(nr[3])} {core.f2b(nr[4])}" if nr is not None
+    # a label that completes the round carries the fold bit lists of the batch to adopt (the model computes the statistics);
+    # any other label carries the old numeric form with NaNs (never read by the model — and keeps that form exercised)
+    nf = info.get("newfolds")
+    tail = (folds_tail(nf) if nf is not None
             else f"0 {core.f2b(NAN)} {core.f2b(NAN)} {core.f2b(NAN)} {core.f2b(NAN)}")
     return f"{depth} l {sym.rows} {info.get('correct', 0)} {sym.model_cols()} {tail}"
 
@@ -523,6 +616,13 @@ def check_call(acc, cfg, seq, pre, sym, out, post, gathered):
                  branch=info["branch"], before=dict(zip(OBS, pre)), after=dict(zip(OBS, post)),
                  prescribed_after=e, new_reference_from_harness_copy=info["newref"])
         return False, gathered2, info
+    if info.get("newrows") is not None:
+        count_batch(acc, info["newrows"], cfg.k, cfg.width, "adoption-after-oracle-round")
+        dev = spec_deviation(post, info["newrows"], cfg.k, cfg.width)
+        if dev is not None:
+            acc.fail("k-fold-mean-std-spec", cfg, seq, step, observable=dev[0], impl=post[OBS.index(dev[0])], exact_rational_spec=dev[1],
+                     adopted_rows=[list(r) for r in info["newrows"]], fold_bits=list(info["newfolds"]), after=dict(zip(OBS, post)))
+            return False, gathered2, info
     if post[7] != (post[8] - 1) / post[8]:
         acc.fail("forgetting-factor", cfg, seq, step, impl=post[7], prescribed=(post[8] - 1) / post[8], after=dict(zip(OBS, post)))
         return False, gathered2, info
@@ -550,6 +650,9 @@ def compare_with_model(acc, out_lines):
             diff = "outcome"
         else:
             diff = same_obs(post, mobs)
+        if diff is None and (info.get("newfolds") is not None or info["branch"] == "set_reference"):
+            same_bits = all(core.f2b(post[i]) == core.f2b(mobs[i]) for i in range(9, 13)) and post[8] == mobs[8]
+            acc.count("refstats:model-vs-implementation:" + ("bit-identical" if same_bits else "within-tolerance-only"))
         if diff is not None:
             if info["margin"] is not None and info["margin"] < 1e-9 and not info["exact"] and diff in ("drift", "waiting", "outcome"):
                 acc.thin += 1
@@ -569,8 +672,8 @@ def explore(task):
     mode, ci, prefix, alphabet, maxlen = task
     cfg = fixed_configs()[ci]
     acc = Acc()
-    acc.lines.append(cfg.model_new()); acc.expect.append(None)
     det, pre = start(acc, cfg, report=not prefix)
+    init_lines(acc, cfg, pre, compare=not prefix)
     if det is None:
         return acc_finish(acc)
     gathered, seq, flag = START, [], False
@@ -652,15 +755,19 @@ def random_case(task):
     acc = Acc()
     grid = [-8, -4, -2, -1, -0.5, -0.25, 0.25, 0.5, 1, 2, 4, 8]
     for _attempt in range(50):
-        n = int(rng.integers(4, 13))
-        k = int(rng.choice([2, 2, 3, 4])) if n >= 8 else int(rng.choice([2, 3])) if n >= 6 else 2
+        if rng.random() < 0.25:     # larger batches with many folds (default k = 10; numpy sums 8 or more values in 8 lanes)
+            n = int(rng.integers(10, 31))
+            k = min(n, int(rng.choice([5, 8, 9, 10, 11])))
+        else:
+            n = int(rng.integers(4, 13))
+            k = int(rng.choice([2, 2, 3, 4])) if n >= 8 else int(rng.choice([2, 3])) if n >= 6 else 2
         rows = []
         for _ in range(n):
             s = float(rng.choice(grid))
             yv = int(s > 0) if rng.random() < 0.8 else int(s <= 0)
             x2 = float(rng.choice([0, 0, 0.25, -0.25]))
             rows.append(((s + x2) / 2, x2, yv))
-        olen = None if rng.random() < 0.3 else int(rng.integers(k, 9))
+        olen = None if rng.random() < 0.3 else int(rng.integers(k, max(9, k + 4)))
         sens = [0, 0.25, 0.5, 0.5, 1, 1, 1.5, 2, 2, 3][int(rng.integers(0, 10))]
         width = float(rng.choice([0.5, 1.0, 2.0]))
         cfg = Config(f"random-{idx}", rows, sens, k, olen, width)
@@ -668,8 +775,8 @@ def random_case(task):
             break
     cfg.standard_symbols()
     t = cfg.t
-    acc.lines.append(cfg.model_new()); acc.expect.append(None)
     det, pre = start(acc, cfg)
+    init_lines(acc, cfg, pre)
     if det is None:
         return acc_finish(acc)
     gathered, seq = START, []
@@ -835,6 +942,7 @@ def run(ctx):
                                      "reduced_length": reduced_len, "alphabet_plain": PLAIN, "alphabet_reduced": FULL}
     ctx.exhaustive = True
     ctx.extra["configurations"] = [c.describe() for c in cfgs]
+    numeric_form_selftest(ctx, cfgs)
     for res in run_tasks(explore, tasks, procs):
         merge(ctx, res)
     nrand, rlen = (60, 250) if ctx.quick else (300, 600)
@@ -849,11 +957,30 @@ def run(ctx):
     need = ["boundary-equal:warning:exact", "boundary-equal:confirm:exact", "reached:drift-confirmed", "branch:update-after-drift",
             "branch:label-N:ruled-out", "branch:refuse:label-columns", "branch:refuse:update-while-waiting",
             "random:cases-with-2+-decisions", "closed-form-evaluations", "permuted-sample-accepted:first-of-round",
-            "decision-with-permuted-first-sample:verdict-depends-on-order"]
+            "decision-with-permuted-first-sample:verdict-depends-on-order",
+            "refstats:initial-set_reference", "refstats:adoption-after-oracle-round", "refstats:unequal-fold-sizes",
+            "refstats:fold-mean-differs-from-pooled-ratio", "refstats:both-deviations-positive",
+            "refstats:k>=8(numpy 8-lane branch)", "refstats:model-vs-implementation:bit-identical"]
     if not ctx.failing and not ctx.mismatches:
         missing = [n for n in need if not ctx.stats.get(n)]
         if missing:
             raise core.Infra("input distribution degenerated, never reached: " + ", ".join(missing))
+
+
+def numeric_form_selftest(ctx, cfgs):
+    """the driver still accepts ready-made statistics (oracle form of Model/MD3.lean): created either way the model shows the
+    same initial state, and a round completed with numeric statistics adopts exactly those"""
+    lines = []
+    for c in cfgs:
+        lines += [c.model_new(), "0 show", c.model_new_numeric(), "0 show"]
+    out = core.run_driver(lines)
+    for i, c in enumerate(cfgs):
+        a, b = parse_model(out[4 * i + 1]), parse_model(out[4 * i + 3])
+        if a is None or b is None or a[0] != "ok" or same_obs(a[1], b[1]) is not None:
+            raise core.Infra(f"fold form and numeric form of the MD3 model disagree for {c.name}: {out[4 * i + 1]} / {out[4 * i + 3]}")
+        if b[1][8] != c.stats0[0] or any(core.f2b(x) != core.f2b(y) for x, y in zip(b[1][9:], c.stats0[1:])):
+            raise core.Infra("numeric form of the MD3 model does not relay the statistics it was given")
+    ctx.count("selftest:numeric-form-equals-fold-form", len(cfgs))
 
 
 def trace(cfg, names):
